@@ -95,7 +95,7 @@ ORACLES = [
     (re.compile(r"^value::value::Value::insert::<|<impl value::value::Value>::insert::<"), m_value_insert),
 ]
 
-OPAQUE = [r"^value::value::Value::(remove|get)::<|<impl value::value::Value>::(remove|get)::<", r"^<value::value::Value as Clone>::clone$", r"^TypeDef::\w+(::<.*>)?$", r"^<TypeDef as Clone>::clone$", r"^OwnedValuePath::is_root$",
+OPAQUE = [r"VrlValueArithmetic>::eq_lossy$", r"^<value::value::Value as PartialEq>::eq$", r"^value::value::Value::(remove|get)::<|<impl value::value::Value>::(remove|get)::<", r"^<value::value::Value as Clone>::clone$", r"^TypeDef::\w+(::<.*>)?$", r"^<TypeDef as Clone>::clone$", r"^OwnedValuePath::is_root$",
           r"^value::value::Value::at_path::<|<impl value::value::Value>::at_path::<", r"^ExternalEnv::\w+$", r"^(state::)?ExternalEnv::\w+$",
           r"^context::Context::<'_>::target_mut$", r"^<dyn (target::)?Target as (target::)?Target>::target_insert$", r"<impl value::kind::Kind>::\w+(::<.*>)?$", r"^value::kind::Kind::\w+(::<.*>)?$", r"Kind::insert::<",
           ]
@@ -282,6 +282,9 @@ def details_merge_obligations(S):
 
 def merge_battery():
     return [
+        ({"source": "x = 2.0\nif .c == true { x = 2 }\n.r = mod(7, x)\n", "event": {"c": True}}, {"outcome": "ok", "types_sound": True}),
+        ({"source": "x = 2.0\nif .c == true { x = 2 }\n.r = mod(7, x)\n", "event": {"c": False}}, {"outcome": "ok", "types_sound": True}),
+        ({"source": "x = 9007199254740992.0\nif .c == true { x = 9007199254740993 }\ny, err = x - 9007199254740992\n.r = 10 / y\n", "event": {"c": False}}, {"accepted_never_fails": True}),
         ({"source": "x = 0\nif .flag == true { x = 2 }\n.r = 10 / x\n", "event": {"flag": False}}, {"accepted_never_fails": True}),
         ({"source": "x = 1\nif .flag == true { x = 2 } else { x = 0 }\n.r = 10 / x\n", "event": {"flag": False}}, {"accepted_never_fails": True}),
         ({"source": "x = 1\nif .flag == true { x = 0 } else { x = 2 }\n.r = 10 / x\n", "event": {"flag": True}}, {"accepted_never_fails": True}),
